@@ -3,6 +3,10 @@
 Areas (harness go/cmd/c03, all sixteen configurations D1..D16 instantiated at compile time):
   fx       operations whose exact intermediates and result are representable (the hypotheses of the theorems hold;
            classified in the generator with math/big): implementation vs model, line by line
+           plus EVERY integer-target As line, also where the integer part does not fit the target kind: Go's
+           integer -> integer conversion is fully defined (truncation to the target width), so model and code must agree
+           on the wrapped value (C03.f64_f128_agree_as_int has no fitsKind hypothesis); these lines are in the twin
+           comparison too
   fxwrap   operations that overflow somewhere, or divide by zero: wrap-around / panic behaviour, model vs implementation;
            outside the hypotheses of the property, so a difference is recorded as model drift, not as a violation.
            Mod is NOT in this stream unless its divisor is zero: since the fix "Mod computes the remainder directly" it
@@ -260,7 +264,9 @@ def run(ctx):
     thm = ("C03.f64_mul_spec / f64_div_spec / f64_mod_spec (every non-zero divisor) / f64_trunc_spec / f64_ceil_spec / f64_round_spec / "
            "f64_from_int_exact / f64_as_int_exact (and the f128_ twins), f64_f128_agree, mul_rational … : the model "
            "equals exact decimal arithmetic truncated toward zero under the representability hypotheses, which hold "
-           "for every line of this stream; impl != model on this input")
+           "for every line of this stream (integer-target As lines whose integer part does not fit the target kind are "
+           "judged as well: Go defines that conversion as truncation to the target width, f64_f128_agree_as_int); "
+           "impl != model on this input")
     tmo = 120 if ctx.tier == "quick" else 900
     ctx.impl_oracle("fxcfg", 32, label="Places()/Multiplier() of D1..D16 through f64 and f128 against k and 10^k "
                                        "computed by the harness", timeout=tmo)
